@@ -15,6 +15,7 @@ package main
 
 import (
 	"fmt"
+	iofs "io/fs"
 	"os"
 	"path/filepath"
 	"sort"
@@ -35,12 +36,7 @@ const c04HasSched = true
 // result is the listing of the instant of the listing section.
 func init() {
 	c04HandleHook = func(f afero.File, name string, a []string) (string, bool) {
-		if name != "HReaddir" {
-			return "", false
-		}
-		l, err := f.Readdir(atoi(a[0]))
-		parts := make([]string, len(l))
-		for i, fi := range l {
+		raw := func(fi os.FileInfo) (string, bool) {
 			mfi, ok := fi.(*mem.FileInfo)
 			if !ok {
 				return "", false
@@ -51,10 +47,45 @@ func init() {
 			if dir {
 				d = "d"
 			}
-			parts[i] = hx([]byte(base)) + "|" + d
+			return hx([]byte(base)) + "|" + d, true
 		}
-		sort.Strings(parts)
-		return listRes("infos", strings.Join(parts, ","), len(l), err), true
+		switch name {
+		case "HReaddir":
+			l, err := f.Readdir(atoi(a[0]))
+			parts := make([]string, len(l))
+			for i, fi := range l {
+				p, ok := raw(fi)
+				if !ok {
+					return "", false
+				}
+				parts[i] = p
+			}
+			sort.Strings(parts)
+			return listRes("infos", strings.Join(parts, ","), len(l), err), true
+		case "HReadDir":
+			// the io/fs spelling: the entries are common.FileInfoDirEntry values around the same live
+			// FileInfos (Info() hands the FileInfo out without a lock)
+			rd, ok := f.(iofs.ReadDirFile)
+			if !ok {
+				return "", false
+			}
+			des, err := rd.ReadDir(atoi(a[0]))
+			parts := make([]string, len(des))
+			for i, de := range des {
+				fi, ierr := de.Info()
+				if ierr != nil {
+					return "", false
+				}
+				p, ok := raw(fi)
+				if !ok {
+					return "", false
+				}
+				parts[i] = p
+			}
+			sort.Strings(parts)
+			return listRes("infos", strings.Join(parts, ","), len(des), err), true
+		}
+		return "", false
 	}
 }
 
